@@ -369,6 +369,38 @@ def h_multi_signer(ctx):
 TEXTS = ["plain text", "\ufeffstarts with a byte-order mark", "in the mid\ufeffdle", "caf\u00e9", "cafe\u0301", "\u212b", "trailing newline\n", " leading blank", "\u0000nul first"]
 
 
+def h_long_payload(ctx):
+    """Payloads around 64 KiB and its multiples (where buffers are usually cut), URL-safe text so that every path carries them: what
+    joserfc signs is accepted by the independent verifier and by joserfc, with exactly the payload octets."""
+    alg, kind = ctx.choose("alg/key", [("HS256", "oct32"), ("ES256", "P-256"), ("EdDSA", "Ed25519")])
+    path = ctx.choose("path", PATHS)
+    pname, want = ctx.choose("payload", A.long_payloads())
+    jwk = scen.key(kind)
+    key = A.jkey(jwk, "dict")
+    prot = {"alg": alg}
+    if path.startswith("7797"):
+        prot.update({"b64": False, "crit": ["b64"]})
+    p_path = "7797-attached" if path == "7797-compact" else path
+    r = scen.jws_produce(p_path, dict(prot), None, want, key, [alg])
+    tag = f"{alg[:2]}* {path}"
+    if not r.ok:
+        return Outcome("produce-failed", [viol(f"signing a long payload fails: {tag}", f"{pname}: {r.exc!r}")], nontrivial=(alg, path, pname))
+    vs = []
+    tok = r.value
+    detached = want if (isinstance(tok, str) and tok.split(".")[1] == "") else None
+    try:
+        pub = jwk if jwk["kty"] == "oct" else rjwk.public_of(jwk)
+        p = rjws.verify_compact(tok, pub, detached_payload=detached)[1] if isinstance(tok, str) else rjws.verify_json(tok, pub)[1]
+        if p != want:
+            vs.append(viol(f"a long payload is signed as other octets: {tag}", f"{pname}: got {len(p)} octets"))
+    except (RefError, ValueError) as e:
+        vs.append(viol(f"independent verifier rejects a token made from a long payload: {tag}", f"{pname}: {e!r}"))
+    c = scen.jws_consume(p_path, tok, key, [alg], payload=detached)
+    if not c.ok or bytes(c.value[0]) != want:
+        vs.append(viol(f"round trip changes or refuses a long payload: {tag}", f"{pname}: {c.exc!r}"))
+    return Outcome(f"long:{'ok' if not vs else 'bad'}", vs, nontrivial=(alg, path, pname))
+
+
 def h_text_payload(ctx):
     """A payload given as str is signed as its UTF-8 octets - all of them, in the code points given."""
     alg, kind = ctx.choose("alg/key", [("HS256", "oct32"), ("ES256", "P-256")])
@@ -818,8 +850,10 @@ _pc = Part("callers-allow-list-changed-between-calls", h_callers_list, split_dep
 _pc.single_bucket_ok = True
 _pk = Part("key-set-edited-between-signings", h_keyset_edited, split_depth=2)
 _pk.single_bucket_ok = True
+_pl = Part("long-payloads", h_long_payload, split_depth=2)
+_pl.single_bucket_ok = True
 PARTS = [
-    _pc, _pt, _pk,
+    _pc, _pt, _pk, _pl,
     Part("rfc7797-functions-with-b64-left-at-its-default", h_7797_default_b64, split_depth=2),
     Part("registry-and-allow-list-in-one-call", h_both_arguments, split_depth=2),
     Part("keys-declaring-their-operation", h_declared, split_depth=2),
